@@ -425,6 +425,22 @@ func c02Corruptions(sealed string, raw []byte, full bool) []c02Candidate {
 	add("bom-prefixed", "\xef\xbb\xbf"+sealed)
 	add("plus-for-dash", strings.ReplaceAll(sealed, "-", "+"))
 	add("upper-cased", strings.ToUpper(sealed))
+	// the same bytes in another order: rotations (a nonce or tag moved from one end to the other), halves
+	// swapped, reversed
+	for _, k := range []int{1, 8, 12, 16, 24, 32} {
+		if k < len(raw) {
+			add("rotate-bytes-left", enc(append(append([]byte(nil), raw[k:]...), raw[:k]...)))
+			add("rotate-bytes-right", enc(append(append([]byte(nil), raw[len(raw)-k:]...), raw[:len(raw)-k]...)))
+		}
+	}
+	if h := len(raw) / 2; h > 0 {
+		add("swap-halves", enc(append(append([]byte(nil), raw[h:]...), raw[:h]...)))
+		rev := make([]byte, len(raw))
+		for i := range raw {
+			rev[len(raw)-1-i] = raw[i]
+		}
+		add("reverse-bytes", enc(rev))
+	}
 	// re-encodings
 	add("re-encode-padded", base64.URLEncoding.EncodeToString(raw))
 	add("re-encode-std", base64.RawStdEncoding.EncodeToString(raw))
@@ -440,7 +456,7 @@ func init() {
 		ID:    "C02",
 		Level: "exploration",
 		Rule: "for 7 genuine values (empty session, session with empty non-nil groups, small session, unicode session, 50-group session with long tokens, 300-group session of >16 KiB, flow record) sealed by the real MiscreantCipher under 32- and 64-byte keys and presented to 8 other keys (unrelated keys and neighbours differing in the first / last / 33rd byte or in one half): every single-bit flip of every byte, every prefix/suffix truncation of the string and of the bytes, " +
-			"extension by every byte value and every alphabet character at either end, every single-character substitution from the base64url alphabet plus '=+/ LF', CR/LF insertion at every position, re-encodings and re-padding, other spellings (percent-encoding of one / every character, twice, lower-case hex; an HTML entity; double quotes; a BOM; + for -; upper case), presentation under every other key, also at the cookie store after the value's own store has loaded it (thorough: all double-bit flips of two values); " +
+			"extension by every byte value and every alphabet character at either end, every single-character substitution from the base64url alphabet plus '=+/ LF', CR/LF insertion at every position, re-encodings and re-padding, the same bytes rotated / halves swapped / reversed, other spellings (percent-encoding of one / every character, twice, lower-case hex; an HTML entity; double quotes; a BOM; + for -; upper case), presentation under every other key, also at the cookie store after the value's own store has loaded it (thorough: all double-bit flips of two values); " +
 			"each candidate goes to Cipher.Unmarshal, sessions.UnmarshalSession and CookieStore.LoadSession. Oracle: a candidate that is not a string sso itself produced must be rejected with an error and yield no data; genuine values round-trip deep-equal; seals are pairwise distinct (1200 seals of two values, 8 of the others); sealed bytes contain neither plaintext fields nor the compressed plaintext. " +
 			"distinct_nontrivial = distinct (corruption operator, API, rejected?) triples",
 		Assumptions:    []string{"AES-CMAC-SIV (miscreant) is trusted: unforgeability against arbitrary strings is not decided by enumeration", "positions of long values are sub-sampled every 7th character in the quick tier (all positions in thorough)"},
